@@ -196,8 +196,8 @@ Definition prediction_agrees (c : e2e_case) : bool :=
 
 (* ---- aggregate rules: the directives seen by the aggregate report ---- *)
 Record agg_case := {
-  a_files : list (str * list comment);   (* every file of the run: name, comments *)
-  a_carried : bool;                      (* were the files' directives available to the aggregate report? *)
+  a_own : list (str * list comment);     (* files linted in the run that reports: name, comments *)
+  a_given : list (str * list comment);   (* files whose exported directives were handed in (WithIgnoreDirectives) *)
   a_raw : list violation;                (* aggregate violations with every marker defused *)
   a_obs : list violation }.
 
@@ -208,9 +208,9 @@ Definition files_results (fs : list (str * list comment)) : option (list (str * 
                            end) (Some []) fs.
 
 Definition agg_agrees (c : agg_case) : bool :=
-  match files_results (a_files c) with
-  | Some rs =>
-      let g := if a_carried c then carry rs else [] in
+  match files_results (a_own c), files_results (a_given c) with
+  | Some own, Some given =>
+      let g := carry_overridden (carry own) (carry given) in
       same_violations (agg_report_filter (a_raw c) g) (a_obs c)
-  | None => false
+  | _, _ => false
   end.
